@@ -1127,6 +1127,18 @@ impl<'cx> TyGenContext<'_, 'cx> {
             return slice_ty;
         }
 
+        // `&[DiplomatByte]` shares the `_SliceUint8` helper with `&[u8]` (the ByteBuffer conversion
+        // happens at the use sites), so generate the helper the same way whichever is seen first.
+        let byte_as_u8;
+        let slice = match slice {
+            hir::Slice::Primitive(b, hir::PrimitiveType::Byte) => {
+                byte_as_u8 =
+                    hir::Slice::Primitive(*b, hir::PrimitiveType::Int(hir::IntType::U8));
+                &byte_as_u8
+            }
+            s => s,
+        };
+
         #[derive(askama::Template)]
         #[template(path = "dart/slice.dart.jinja", escape = "none")]
         struct SliceTemplate<'a> {
